@@ -235,8 +235,16 @@ RespFramed(framing, f) ==
 RespFramedAnySize(framing, f) ==
     IF framing = "tcp" THEN TCPFramed(f) ELSE Len(f) >= 4 /\ CRCConsistent(f)
 
+\* a well-formed TCP response with a byte-count field, followed by bytes that belong to nothing: the frame is longer
+\* than its own header and byte count say
+TrailingBytesTCP(f) ==
+    /\ Len(f) >= 10 /\ 6 + MBAPLen(f) < Len(f) /\ 6 + MBAPLen(f) >= 9
+    /\ LET g == SubSeq(f, 1, 6 + MBAPLen(f)) IN
+          TCPFramed(g) /\ g[8] \in {1, 2, 3, 4, 23} /\ DecodeRespPDU(g[7], SubSeq(g, 8, Len(g))).ok
+
 ClassifyResp(framing, f) ==
-    IF ~RespFramed(framing, f) THEN
+    IF framing = "tcp" /\ TrailingBytesTCP(f) THEN [kind |-> "mismatch"]
+    ELSE IF ~RespFramed(framing, f) THEN
         (IF RespFramedAnySize(framing, f) /\ DecodeRespPDU(RespUnit(framing, f), RespPDUOf(framing, f)).ok
          THEN [kind |-> "oversize", r |-> DecodeRespPDU(RespUnit(framing, f), RespPDUOf(framing, f)).r]
          ELSE [kind |-> "other"])
